@@ -904,7 +904,12 @@ func c15Prop(rt *rapid.T, c *vlib.Case, mode c15Mode) {
 				st.labels["reopen:after-invalidate+store"] = true
 			}
 		}
-		if err := s.cache.Close(); err != nil {
+		// the process may also die instead of closing the cache: everything it wrote stays, nothing else happens
+		if c15Pct(t, "killed") < 40 {
+			st.labels["reopen:after-kill(no Close)"] = true
+			log(kind, "process killed, no Close")
+			s.closeQuietly()
+		} else if err := s.cache.Close(); err != nil {
 			t.Fatalf("Close failed: %v", err)
 		}
 		s.cache = nil
